@@ -56,6 +56,7 @@ class World:
             comps = [("a", a), ("b", b)]
             if len(shape) == 1:
                 comps.append(("c", np.array(["x", "y", "z"] * n)[:n]))
+            comps.append(("spare", np.arange(n, dtype=float).reshape(shape)))     # used by no selection: a refresh may drop / re-add it
         else:
             comps = [(c.label, np.array(src.d0.get_component(c).data)) for c in src.d0.main_components]
         for name, arr in comps:
@@ -75,6 +76,23 @@ class World:
         if self.link_kind:
             self.link = self.make_link(self.link_kind, self.link_src)
             self.dc.add_link(self.link)
+        self.listener = None
+        if src is None and spec.get("listener"):
+            # stands in for viewer layers: re-reads every group's mask on every hub message, also in the middle of an update
+            from glue.core.hub import HubListener
+            from glue.core.message import Message
+            world = self
+
+            class Reader(HubListener):
+                def notify(self_, msg):
+                    for g in list(world.groups):
+                        for d in (world.d0, world.d1):
+                            try:
+                                d.get_mask(g.subset_state)
+                            except Exception:  # noqa  (incompatible, or an inconsistent intermediate state)
+                                pass
+            self.listener = Reader()
+            self.dc.hub.subscribe(self.listener, Message, handler=self.listener.notify)
         self.groups = []
         if src is None:
             for t in spec["groups"]:
@@ -355,12 +373,17 @@ def fn_history(spec, rec):
             shape = tuple(max(1, s + (op[1] % 3) - 1) for s in w.d0.shape) if op[2] else w.d0.shape
             n = int(np.prod(shape))
             other = Data(label="d0")
+            drop_spare = op[1] % 2 == 1
             for c in w.d0.main_components:
+                if c.label == "spare" and drop_spare:
+                    continue       # the new data lacks this component: it is removed in the middle of the refresh
                 old = w.d0.get_component(c).data
                 if old.dtype.kind in "US":
                     other.add_component(np.array(["x", "y", "z", "y"] * n)[:n].reshape(shape), c.label)
                 else:
                     other.add_component((np.arange(n, dtype=float) + op[1]).reshape(shape), c.label)
+            if not drop_spare and not any(c.label == "spare" for c in w.d0.main_components):
+                other.add_component(np.arange(n, dtype=float).reshape(shape), "spare")
             if not w.plain:
                 other.add_component(other.id["a"] * 2 + 1, "der")
             if shape != w.d0.shape and any(type(s).__name__ in ("MaskSubsetState", "FloodFillSubsetState", "ElementSubsetState") for g in w.groups for _, s in nodes_of(g.subset_state)):
@@ -611,7 +634,7 @@ def core_cases(draw, ops=None):
                                    st.builds(lambda lo: {"t": "range", "att": ["c", 0], "lo": lo, "hi": lo + 2.0}, st.integers(-2, 3).map(float))))
     spare = draw(gen.tree_spec(dspec, max_leaves=2, kinds=kinds))
     views = [draw(gen.view_spec(shape, ("single", "tuple", "bool"))) for _ in range(draw(st.integers(0, 2)))]
-    return {"shape": shape, "a": a, "plain": draw(st.booleans()), "link": draw(st.sampled_from([None, "shift", "double"])), "groups": groups, "spare": spare,
+    return {"shape": shape, "a": a, "listener": draw(st.booleans()), "plain": draw(st.booleans()), "link": draw(st.sampled_from([None, "shift", "double"])), "groups": groups, "spare": spare,
             "views": views, "ops": draw(st.lists(core_op if ops is None else ops, min_size=2, max_size=20 if ops is None else 8))}
 
 
